@@ -1,5 +1,6 @@
 import NanoVerif.Model.Proto
 import NanoVerif.Model.Split
+import NanoVerif.Model.SplitSampler
 /-!
   driver family `split` (C12): one self-contained op per line. The trailing fields of every op are the oracle
   answers the harness obtained from the C++ standard library (permutations of `std::shuffle`, drawn positions,
@@ -58,6 +59,110 @@ def gboostCalls (mode : Mode) (samples : List Int) (count : Nat) (weights : Opti
     let (rs, ts) ← gboostCalls mode samples count weights k ts
     pure (r :: rs, ts)
 
+/-! ### the generator state of the driver: the `minstd_rand` state (modelled) plus the recorded answers of the two
+    standard-library calls that stay oracles (`std::shuffle`, `uniform_int_distribution`); an answer that breaks the
+    oracle's contract (not a permutation, a position out of range, too few answers) sets `bad` -/
+
+structure DG where
+  lcg : Nat
+  perms : List (List Int)
+  draws : List Nat
+  bad : Bool
+
+def DG.ofSeed (seed : Nat) : DG := ⟨lcgSeed seed, [], [], false⟩
+
+def floatLib : StdLib DG Float where
+  shuffle g l :=
+    match g.perms with
+    | p :: ps => if isShuffleOf p l then (p, { g with perms := ps }) else (l, { g with bad := true })
+    | [] => (l, { g with bad := true })
+  uniform g hi :=
+    match g.draws with
+    | d :: ds => if d ≤ hi then (d, { g with draws := ds }) else (0, { g with bad := true })
+    | [] => (0, { g with bad := true })
+  canon g := let r := canonical g.lcg; (r.1, { g with lcg := r.2 })
+
+def floatNum : Num Float where
+  ofNat := Nat.toFloat
+  trunc x := x.toUInt64.toNat
+  norm2 l := Float.sqrt (sumSq l)
+
+def showOptInts : Option (List Int) → String
+  | some l => showInts l
+  | none => "outside"
+
+def pPName : P PName
+  | "folds" :: ts => some (.folds, ts)
+  | "seed" :: ts => some (.seed, ts)
+  | "train_per" :: ts => some (.trainPer, ts)
+  | _ => none
+
+def pHCmd : P HCmd
+  | "set" :: ts => do
+    let (slot, ts) ← pNat ts
+    let (p, ts) ← pPName ts
+    let (v, ts) ← pInt ts
+    pure (.set slot p v, ts)
+  | "split" :: ts => do
+    let (slot, ts) ← pNat ts
+    let (samples, ts) ← pList pInt ts
+    pure (.split slot samples, ts)
+  | "clone" :: ts => do
+    let (slot, ts) ← pNat ts
+    pure (.clone slot, ts)
+  | _ => none
+
+/-- the recorded shuffles of one `split` call as the generator: `make_rng(seed)` is the whole record, every shuffle pops one -/
+def recShuffle (g : List (List Int)) (l : List Int) : List Int × List (List Int) :=
+  match g with
+  | p :: ps => (p, ps)
+  | [] => (l, [])
+
+def showHOut : HOut → String
+  | .ok => "ok"
+  | .refused => "refused"
+  | .badSlot => "bad-slot"
+  | .splits r => String.intercalate " " ("S" :: "1" :: toString r.length :: r.map (fun p => s!"{showInts p.1} {showInts p.2}"))
+
+/-- runs the history one `hStep` at a time; a `split` consumes its record (one list of permutations) from the tail tokens -/
+def histGo : List Splitter → List HCmd → Toks → Option (List String × Toks)
+  | _, [], ts => some ([], ts)
+  | objs, c :: cs, ts => do
+    let (rec, ts) ← (match c with
+      | .split slot samples =>
+        match objs[slot]? with
+        | none => pure ([], ts)   -- no such object: nothing was asked of the standard library
+        | some s => do
+          let (perms, ts) ← pList (pList pInt) ts
+          -- the record must be what the object's parameters ask for: one permutation (k-fold) / one per fold (random)
+          guard (perms.length = (match s.kind with | .kfold => 1 | .random => s.folds))
+          guard (perms.all (isShuffleOf · samples))
+          pure (perms, ts)
+      | _ => pure ([], ts) : Option (List (List Int) × Toks))
+    let r := hStep (fun _ => rec) recShuffle sortI objs c
+    let (rs, ts) ← histGo r.2 cs ts
+    pure (showHOut r.1 :: rs, ts)
+
+def pFloatLists : Nat → P (List (List Float))
+  | 0, ts => some ([], ts)
+  | k + 1, ts => do
+    let (l, ts) ← pList pFloat ts
+    let (ls, ts) ← pFloatLists k ts
+    pure (l :: ls, ts)
+
+def pIntLists : Nat → P (List (List Int))
+  | 0, ts => some ([], ts)
+  | k + 1, ts => do
+    let (l, ts) ← pList pInt ts
+    let (ls, ts) ← pIntLists k ts
+    pure (l :: ls, ts)
+
+/-- `errors_losses(1, i)` and `gradients.vector(i)` of one call from the flat `total × gdim` values (the loss is the first
+    of the row) -/
+def callOf (gdim : Nat) (values : Array Float) : (Int → Float) × (Int → List Float) :=
+  (fun i => values.getD (i.toNat * gdim) 0.0,
+   fun i => (List.range gdim).map (fun g => values.getD (i.toNat * gdim + g) 0.0))
+
 def handle : Toks → Option String
   | "kfold" :: ts => do
     let (samples, ts) ← pList pInt ts
@@ -101,12 +206,17 @@ def handle : Toks → Option String
     let (samples, ts) ← pList pInt ts
     let (weights, ts) ← pList pFloat ts
     let (count, ts) ← pNat ts
-    let (_seed, ts) ← pNat ts
+    let (seed, ts) ← pNat ts
     let (draws, ts) ← pList pNat ts
     guard ts.isEmpty
-    guard (weights.length = samples.length ∧ drawsPositive weights draws)
-    let r ← sampleWith sortI samples count draws
-    pure s!"ok {showInts r}"
+    -- the whole chain inside the model: minstd_rand(seed) -> generate_canonical -> discrete_distribution -> pick -> sort;
+    -- the positions the harness obtained from the real std::discrete_distribution are only a monitor of that chain
+    let r := wwithG floatLib sortI samples weights count (DG.ofSeed seed)
+    let mine := (drawsG (ddDrawG floatLib (ddCp weights).toArray) count (DG.ofSeed seed)).1
+    if mine != draws then pure s!"dd-model-mismatch model {showNats mine} library {showNats draws}"
+    else
+      let sel ← r.1
+      pure s!"ok {showInts sel}"
   | "gboost" :: ts => do
     let (mode, ts) ← pMode ts
     let (samples, ts) ← pList pInt ts
@@ -131,6 +241,41 @@ def handle : Toks → Option String
     guard ts.isEmpty
     guard (u.length = x0.length)
     pure s!"ok {showFloats (ballPoint x0 u r z s)}"
+  | "sampler" :: ts => do
+    let (mode, ts) ← pMode ts
+    let (samples, ts) ← pList pInt ts
+    let (seed, ts) ← pNat ts
+    let (ratio, ts) ← pFloat ts
+    let (total, ts) ← pNat ts
+    let (gdim, ts) ← pNat ts
+    let (calls, ts) ← pNat ts
+    let (values, ts) ← pFloatLists calls ts
+    guard (values.all (·.length = total * gdim) ∧ samples.all (fun s => 0 ≤ s ∧ s.toNat < total))
+    -- the recorded answers of std::shuffle (subsample) / uniform_int_distribution (bootstrap), one list per call
+    let (recs, ts) ← (match mode with
+      | .subsample | .bootstrap => pIntLists calls ts
+      | _ => pure ([], ts) : Option (List (List Int) × Toks))
+    guard ts.isEmpty
+    let g0 : DG := match mode with
+      | .subsample => { DG.ofSeed seed with perms := recs }
+      | .bootstrap => { DG.ofSeed seed with draws := recs.flatten.map Int.toNat }
+      | _ => DG.ofSeed seed
+    guard (recs.flatten.all (0 ≤ ·) ∨ mode == .subsample)
+    let s0 : Sampler DG Float := Sampler.make samples mode g0 ratio
+    let r := Sampler.run floatNum floatLib sortI s0 (values.map (fun v => callOf gdim v.toArray))
+    let g := r.2.rng
+    guard (!g.bad ∧ g.perms.isEmpty ∧ g.draws.isEmpty)
+    pure (String.intercalate " " ("ok" :: "1" :: toString r.1.length :: r.1.map showOptInts))
+  | "hist" :: ts => do
+    let (kind, ts) ← (match ts with
+      | "kfold" :: ts => some (Kind.kfold, ts)
+      | "random" :: ts => some (Kind.random, ts)
+      | _ => none : Option (Kind × Toks))
+    let (k, ts) ← pNat ts
+    let (cmds, ts) ← pMany pHCmd k ts
+    let (outs, ts) ← histGo [Splitter.fresh kind] cmds ts
+    guard ts.isEmpty
+    pure (String.intercalate " " ("ok" :: toString outs.length :: outs))
   | _ => none
 
 end NanoVerif.Driver.Split
